@@ -270,10 +270,27 @@ func (s *sshProxyService) Handle(ctx context.Context, conn net.Conn) error {
 			channel2.CloseWrite()
 		}()
 
+		// what the backend writes to the session's standard error (extended data of the
+		// same channel) goes to the client's standard error
+		stderrDone := make(chan struct{})
+		go func() {
+			defer close(stderrDone)
+
+			if _, err := io.Copy(channel.Stderr(), channel2.Stderr()); err != nil && err != io.EOF {
+				log.Error(err.Error())
+			}
+		}()
+
 		// everything the backend writes, then its end of stream; the channels are closed
 		// once one side has closed its own (after its last request, e.g. exit-status)
 		if _, err := io.Copy(channel, wrappedChannel2); err != nil && err != io.EOF {
 			log.Error(err.Error())
+		}
+
+		// (a client that has gone away is not waited for)
+		select {
+		case <-stderrDone:
+		case <-clientClosed:
 		}
 
 		channel.CloseWrite()
